@@ -417,6 +417,7 @@ fn truncate_json(v: serde_json::Value, budget: usize) -> serde_json::Value {
 }
 
 pub const QUICK_BOOST: u32 = 8;
+pub const THOROUGH_BOOST: u32 = 8;
 
 impl Ctx {
     pub fn new(property: &str, tier: Tier, seed: u64) -> Ctx {
@@ -452,7 +453,8 @@ impl Ctx {
     pub fn n(&self, quick: u32, thorough: u32) -> u32 {
         // the quick tier runs QUICK_BOOST times the per-property base count: still seconds per
         // property on 16 threads, and fixed work (no time quota)
-        let n = if self.quick() { quick.saturating_mul(QUICK_BOOST).min(thorough) } else { thorough };
+        // (the thorough tier likewise runs THOROUGH_BOOST times the per-property thorough base count)
+        let n = if self.quick() { quick.saturating_mul(QUICK_BOOST).min(thorough) } else { thorough.saturating_mul(THOROUGH_BOOST) };
         ((n as f64 * self.scale) as u32).max(1)
     }
 
